@@ -1,4 +1,5 @@
 import PytaskProofs.Lemmas.Provisional
+import PytaskProofs.Lemmas.ProvisionalMarks
 /-!
 # C18 — directory patterns resolve when the consumer starts; generated tasks run in the same build
 
@@ -711,25 +712,142 @@ example : (stepOf f11Y f11F f11S3 1).log = f11S3.log ++ [1] :=
     (by show ∀ r ∈ f11S3.reports, r.2 ≠ Outcome.fail; decide +kernel) f11Task (by decide +kernel) rfl ⟨500000, 1000, 5⟩ (by decide) 1002 (by decide +kernel) (by decide +kernel) (by decide +kernel)
     (by decide) rfl (by decide +kernel) (by decide +kernel)
 
-/-- `b` declares a dependency (a path, or a directory pattern — resolved or not) that `a` declares as a product. -/
-def declLinked (decl : List PTask) (a b : Nat) : Bool :=
-  decl.any (fun A => A.id == a && decl.any (fun B => B.id == b && A.allProds.any (fun n => B.allDeps.contains n)))
+/-- **C18_declared_link.** Declared product → declared dependency is a link of the graph: if, in a running build, the record
+of `r` still declares the node `n` as a product (a path, or a directory pattern — resolved or not) and the record of `c`
+declares `n` as a dependency, then `c` lies below `r` in the session's graph. -/
+theorem C18_declared_link (Y : YieldFn) (F : BodyFn) (ts : List PTask) (w : World) (s0 sm : Prov.Sess) (pre : List Nat)
+    (h0 : initSess ts w = some s0) (h1 : loop Y F s0 pre = .ok sm) (hs : sm.stop = false)
+    (r c : Nat) (R C : PTask) (hR : findTask sm.tasks r = some R) (hC : findTask sm.tasks c = some C) (hne : c ≠ r)
+    (n : Nat) (hn1 : n ∈ R.allProds) (hn2 : n ∈ C.allDeps) : c ∈ taskDesc sm.g r := by
+  have hi : LInv ts sm ([] ++ pre) := loop_inv pre s0 sm [] (initSess_inv h0) h1
+  obtain ⟨m, hdag⟩ := (hi.good hs).dag
+  have e1 := (createDag_spec hdag R (findTask_mem hR)).2.2 n hn1
+  have e2 := (createDag_spec hdag C (findTask_mem hC)).2.1 n hn2
+  rw [findTask_id hR] at e1
+  rw [findTask_id hC] at e2
+  exact mem_taskDesc_iff.2 ⟨G.Reach.step e1 (G.Reach.edge e2), hne⟩
 
-def declChain (decl : List PTask) : List Nat → Bool
-  | a :: b :: r => declLinked decl a b && declChain decl (b :: r)
-  | _ => true
+/-- **C18_failed_root.** In a running build everything below a task reported FAIL — in the current graph, whenever it was
+created or linked — carries the `skip_ancestor_failed` mark. -/
+theorem C18_failed_root (Y : YieldFn) (F : BodyFn) (ts : List PTask) (w : World) (s0 sm : Prov.Sess) (pre : List Nat)
+    (h0 : initSess ts w = some s0) (h1 : loop Y F s0 pre = .ok sm) (f : Nat) (hf : (f, Outcome.fail) ∈ sm.reports) :
+    BelowRoots [f] sm := by
+  have hb : BelowFailedMarked sm := (loop_marks pre s0 sm h1).2 (initSess_marks h0).2
+  intro hs x hx d hd
+  have : x = f := by simpa using hx
+  subst this
+  exact hb hs x d hf hd
 
-/-- **C18_failed_ancestor_skips_full** — the clause at full strength: a task that depends on a failed task *transitively
-through declared products and dependencies* (`decl`: the task records as collected, or as defined by a generator) is not
-executed in that build. **False of the current code** (finding F42): the pattern dependency of a task that is skipped
-because an ancestor failed is resolved anyway, the re-created DAG loses the link to the failed producer, and the marks
-are renewed only below FAIL reports. -/
-def C18_failed_ancestor_skips_full : Prop :=
-  ∀ (Y : YieldFn) (F : BodyFn) (ts : List PTask) (w : World) (s0 sm s' : Prov.Sess) (pre : List Nat) (t : Nat) (post : List Nat)
-    (decl : List PTask) (f : Nat) (chain : List Nat),
-    initSess ts w = some s0 → loop Y F s0 pre = .ok sm → loop Y F sm (t :: post) = .ok s' →
-    (f, Outcome.fail) ∈ sm.reports → (∀ x ∈ decl, x ∈ ts ∨ ∃ g L, x ∈ Y g L) → declChain decl (f :: chain ++ [t]) = true →
-    (stepOf Y F sm t).log = sm.log
+/-- **C18_failed_ancestor_skips_step.** `r` has been reported FAIL or SKIP_PREVIOUS_FAILED and everything below it is marked;
+the build hands out `c`, which lies below `r` in the graph at that moment (e.g. by `C18_declared_link`). Then `c` is not
+executed — its function is not called, it is reported SKIP_PREVIOUS_FAILED — and afterwards everything below `c` is marked
+as well (and everything below `r` still is): the resolution of `c`'s own pattern dependencies may cut its connection to `r`
+in the re-created DAG, but what lies below `c` was already marked, and `c` is now a root of every later renewal (501f7e1). -/
+theorem C18_failed_ancestor_skips_step (Y : YieldFn) (F : BodyFn) (ts : List PTask) (w : World) (s0 sm : Prov.Sess) (pre : List Nat)
+    (c : Nat) (h0 : initSess ts w = some s0) (h1 : loop Y F s0 pre = .ok sm) (h2 : loop Y F sm [c] = .ok (stepOf Y F sm c))
+    (r : Nat) (hr : BadReported [r] sm) (hbr : BelowRoots [r] sm) (hlink : c ∈ taskDesc sm.g r)
+    (hre : (setupProvisional { sm with so := sm.so.take [tv c] } c).stop = false) :
+    (stepOf Y F sm c).log = sm.log ∧ (stepOf Y F sm c).reports = sm.reports ++ [(c, Outcome.skipPrevFailed)] ∧
+    BadReported [c] (stepOf Y F sm c) ∧ BelowRoots [c] (stepOf Y F sm c) ∧
+    BadReported [r] (stepOf Y F sm c) ∧ BelowRoots [r] (stepOf Y F sm c) := by
+  have hi : LInv ts sm ([] ++ pre) := loop_inv pre s0 sm [] (initSess_inv h0) h1
+  obtain ⟨hs, _, hl, hfs, _⟩ := loop_cons h2
+  have hg := hi.good hs
+  cases hfc : findTask sm.tasks c with
+  | none => rw [hfc] at hfs; cases hfs
+  | some Cr =>
+    generalize hsa : ({ sm with so := sm.so.take [tv c] } : Prov.Sess) = sa at hre
+    have hga : sa.stop = false → Good sa (([] ++ pre).map tv ++ [tv c]) := fun _ => by
+      subst hsa
+      exact ⟨hg.dag, by obtain ⟨f, hf, hr'⟩ := hg.reach; exact ⟨f, hf, Reach.ready 1 [tv c] hr' hl⟩, hg.nodes⟩
+    have hfa : findTask sa.tasks c = some Cr := by subst hsa; exact hfc
+    have hra : BadReported [r] sa := by subst hsa; exact hr
+    have hbra : BelowRoots [r] sa := by subst hsa; exact hbr
+    have hlinka : c ∈ taskDesc sa.g r := by subst hsa; exact hlink
+    have hloga : sa.log = sm.log := by subst hsa; rfl
+    have hrepa : sa.reports = sm.reports := by subst hsa; rfl
+    have hstep : stepOf Y F sm c = { protocol Y F sa c with so := (protocol Y F sa c).so.finish [tv c] } := by subst hsa; rfl
+    obtain ⟨m0, hd0⟩ : ∃ m0, Engine.createDag (toProject sa.tasks) {} = Except.ok (sa.g, m0) := by subst hsa; exact hg.dag
+    have hg1 : Good (setupProvisional sa c) _ := (setupProvisional_moves sa c).good.2.2 _ hga hre
+    obtain ⟨m1, hd1⟩ := hg1.dag
+    obtain ⟨hprot, hbc⟩ := skipped_marks_below Y F sa c Cr m0 m1 hd0 hfa hre hd1 r hra hbra hlinka
+    have hsp := setupProvisional_spec sa c Cr hfa
+    have hrep1 := (setupProvisional_marks sa c).reports_of_running hre
+    have hroots := protocol_belowRoots Y F sa c [r] hra
+    rw [hstep]
+    refine ⟨?_, ?_, ?_, ?_, hroots.1, hroots.2 hbra⟩
+    · show (protocol Y F sa c).log = sm.log
+      rw [hprot]; simp only [addReport]; rw [hsp.1.2.1, hloga]
+    · show (protocol Y F sa c).reports = sm.reports ++ [(c, Outcome.skipPrevFailed)]
+      rw [hprot]; simp only [addReport]; rw [hrep1, hrepa]
+    · intro x hx
+      have : x = c := by simpa using hx
+      subst this
+      right
+      show (x, Outcome.skipPrevFailed) ∈ (protocol Y F sa x).reports
+      rw [hprot]; simp [addReport]
+    · show BelowRoots [c] (protocol Y F sa c)
+      rw [hprot]
+      exact hbc
+
+/-- A run of the build along a chain below the root `r`: after some picks (`mid`) the task `c` is handed out while it lies
+below `r` in the graph of that moment, then the run continues along the chain below `c`. -/
+inductive SkipChain (Y : YieldFn) (F : BodyFn) : Nat → Prov.Sess → List (List Nat × Nat) → Prov.Sess → Prop
+  | nil (r : Nat) (s : Prov.Sess) : SkipChain Y F r s [] s
+  | cons (r : Nat) (s sm s' : Prov.Sess) (mid : List Nat) (c : Nat) (rest : List (List Nat × Nat)) :
+      loop Y F s mid = .ok sm → loop Y F sm [c] = .ok (stepOf Y F sm c) → c ∈ taskDesc sm.g r →
+      (setupProvisional { sm with so := sm.so.take [tv c] } c).stop = false →
+      SkipChain Y F c (stepOf Y F sm c) rest s' → SkipChain Y F r s ((mid, c) :: rest) s'
+
+theorem skipChain_aux (Y : YieldFn) (F : BodyFn) (ts : List PTask) (w : World) (s0 : Prov.Sess) (h0 : initSess ts w = some s0) :
+    ∀ (segs : List (List Nat × Nat)) (r : Nat) (s s' : Prov.Sess) (pre : List Nat), loop Y F s0 pre = .ok s →
+      BadReported [r] s → BelowRoots [r] s → SkipChain Y F r s segs s' →
+      ∀ c ∈ segs.map (·.2), (c, Outcome.skipPrevFailed) ∈ s'.reports := by
+  intro segs
+  induction segs with
+  | nil => intro r s s' pre _ _ _ _ c hc; cases hc
+  | cons seg rest ih =>
+    intro r s s' pre hpre hr hbr hch c hc
+    cases hch with
+    | cons _ _ sm _ mid c1 _ hl1 hl2 hlink hre hrest =>
+      have hpre' : loop Y F s0 (pre ++ mid) = .ok sm := loop_append_ok pre mid s0 s sm hpre hl1
+      obtain ⟨hr', hbr'⟩ := loop_belowRoots [r] mid s sm hl1 hr hbr
+      obtain ⟨_, hrep, hbc, hbbc, _, _⟩ := C18_failed_ancestor_skips_step Y F ts w s0 sm (pre ++ mid) c1 h0 hpre' hl2 r hr' hbr' hlink hre
+      have hpre'' : loop Y F s0 ((pre ++ mid) ++ [c1]) = .ok (stepOf Y F sm c1) := loop_append_ok _ _ s0 sm _ hpre' hl2
+      simp only [List.map_cons, List.mem_cons] at hc
+      rcases hc with rfl | hc
+      · -- the report of `c` stays in the list
+        have hin : (c, Outcome.skipPrevFailed) ∈ (stepOf Y F sm c).reports := by rw [hrep]; simp
+        clear ih
+        -- reports only grow along the rest of the chain
+        have mono : ∀ (segs : List (List Nat × Nat)) (r : Nat) (a b : Prov.Sess), SkipChain Y F r a segs b →
+            ∀ x ∈ a.reports, x ∈ b.reports := by
+          intro segs
+          induction segs with
+          | nil => intro r a b h x hx; cases h; exact hx
+          | cons sg rs ih2 =>
+            intro r a b h x hx
+            cases h with
+            | cons _ _ sm2 _ mid2 c2 _ g1 g2 _ _ g5 =>
+              exact ih2 c2 _ b g5 x ((loop_mono [c2] sm2 _ g2).1 x ((loop_mono mid2 a sm2 g1).1 x hx))
+        exact mono rest c _ s' hrest _ hin
+      · exact ih c1 (stepOf Y F sm c1) s' _ hpre'' hbc hbbc hrest c hc
+
+/-- **C18_failed_ancestor_skips_full** (proved since 501f7e1; refuted before — finding F42). A build reports `f` FAIL. Along
+any chain `f = c₀, c₁, …, c_k` in which every `c_{i+1}` is handed out at a moment when it lies below `c_i` in the graph
+(`SkipChain`: e.g. `c_{i+1}` declares a product of `c_i` as a dependency — `C18_declared_link` —, whether it was collected,
+or created by a generator, or linked through a pattern only later), **none** of `c₁ … c_k` is executed: every one is reported
+SKIP_PREVIOUS_FAILED (and by `C18_failed_ancestor_skips_step` its function is not called) — although each skipped task's own
+pattern dependencies are resolved all the same, which cuts its connection to the failed task in the re-created DAG. -/
+theorem C18_failed_ancestor_skips_full (Y : YieldFn) (F : BodyFn) (ts : List PTask) (w : World) (s0 s s' : Prov.Sess) (pre : List Nat)
+    (h0 : initSess ts w = some s0) (h1 : loop Y F s0 pre = .ok s) (f : Nat) (hf : (f, Outcome.fail) ∈ s.reports)
+    (segs : List (List Nat × Nat)) (hc : SkipChain Y F f s segs s') :
+    ∀ c ∈ segs.map (·.2), (c, Outcome.skipPrevFailed) ∈ s'.reports :=
+  skipChain_aux Y F ts w s0 h0 segs f s s' pre h1
+    (fun x hx => Or.inl (by
+      have hxf : x = f := by simpa using hx
+      rw [hxf]; exact hf))
+    (C18_failed_root Y F ts w s0 s pre h0 h1 f hf) hc
 
 /-! The F42 witness: 1 produces the pattern and raises; 2 consumes the pattern (its product 101 is left over); generator 5
 defines 6, which depends on 101. Order 1, 2, 5, 6. -/
@@ -750,5 +868,20 @@ set_option maxRecDepth 8000 in
 example : f38Sm.reports = [(1, Outcome.fail), (2, Outcome.skipPrevFailed), (5, Outcome.success)] ∧
     (stepOf f38Y f11F f38Sm 6).log = f38Sm.log ∧
     (stepOf f38Y f11F f38Sm 6).reports = f38Sm.reports ++ [(6, Outcome.skipPrevFailed)] := by decide +kernel
+
+/-! Non-vacuity of `C18_failed_ancestor_skips_full` on the former F42 witness: 1 FAIL; chain 1 → 2 (pattern) → 6 (product of 2,
+defined by generator 5 after 2 was skipped). -/
+def f38Sa : Prov.Sess := match loop f38Y f11F f38S0 [1] with | .ok s => s | .error _ => exDummy
+def f38S2 : Prov.Sess := stepOf f38Y f11F f38Sa 2
+def f38S5 : Prov.Sess := match loop f38Y f11F f38S2 [5] with | .ok s => s | .error _ => exDummy
+
+set_option maxRecDepth 8000 in
+example : (2, Outcome.skipPrevFailed) ∈ (stepOf f38Y f11F f38S5 6).reports ∧ (6, Outcome.skipPrevFailed) ∈ (stepOf f38Y f11F f38S5 6).reports := by
+  have hch : SkipChain f38Y f11F 1 f38Sa [([], 2), ([5], 6)] (stepOf f38Y f11F f38S5 6) :=
+    SkipChain.cons 1 f38Sa f38Sa _ [] 2 _ (by rfl) (loop_one (by decide +kernel)) (by decide +kernel) (by decide +kernel)
+      (SkipChain.cons 2 f38S2 f38S5 _ [5] 6 _ (by rfl) (loop_one (by decide +kernel)) (by decide +kernel) (by decide +kernel)
+        (SkipChain.nil 6 _))
+  have := C18_failed_ancestor_skips_full f38Y f11F f38Ts f38W f38S0 f38Sa _ [1] (by rfl) (by rfl) 1 (by decide +kernel) _ hch
+  exact ⟨this 2 (by simp), this 6 (by simp)⟩
 
 end Pytask
